@@ -156,6 +156,14 @@ def make_tasks(W, quick, rng):
             tasks.append(dict(name='twin/c%sx/%s/%d/w%d' % (op, op, c, W), W=W, bind={'y': c & ((1 << (8 * W)) - 1)},
                               csrc='empty @is_you(int x) { %s }\n' % obs('%s %s x' % (L, op), is_b(op)),
                               vsrc='empty @is_you(int x, int y) { %s }\n' % obs('y %s x' % op, is_b(op))))
+    # one literal outside the signed word range with a NON-constant other operand: nothing is folded, the literal reaches the assembler,
+    # which wraps it -- the same value the run-time twin holds (not the known finding, which is about folding)
+    for op in OPS:
+        for c in ((1 << (8 * W - 1)), (1 << (8 * W - 1)) + 1, (1 << (8 * W)) - 1, (1 << (8 * W)) + 5, -(1 << (8 * W - 1)) - 1):
+            L = '%d' % c if c >= 0 else '(%d)' % c
+            tasks.append(dict(name='twin/x%sbig/%s/%d/w%d' % (op, op, c, W), W=W, bind={'y': c & ((1 << (8 * W)) - 1)},
+                              csrc='empty @is_you(int x) { %s %s }\n' % (obs('x %s %s' % (op, L), is_b(op)), obs('%s %s x' % (L, op), is_b(op))),
+                              vsrc='empty @is_you(int x, int y) { %s %s }\n' % (obs('x %s y' % op, is_b(op)), obs('y %s x' % op, is_b(op)))))
     # a byte operand against a literal: the literal may be narrowed to byte only if that cannot change the result
     for op in OPS:
         for c in [0, 1, 2, 127, 128, 253, 254, 255, 256, 257, -1, -2, -255, -256]:
@@ -214,10 +222,19 @@ def make_tasks(W, quick, rng):
         tasks.append(dict(name='twin/spec-const-global/%d/w%d' % (c, W), W=W, bind={'y': c & ((1 << (8 * W)) - 1)},
                           csrc=SPRE + 'const int K = %s;\nempty @is_you(int x) { sleep(K ?? ord(x)); sleep(g); sleep((K + 1) ?? ord(x)); sleep(g); }\n' % L,
                           vsrc=SPRE + 'empty @is_you(int x, int y) { sleep(y ?? ord(x)); sleep(g); sleep((y + 1) ?? ord(x)); sleep(g); }\n'))
+        # the side-effecting call sits below an operator / cast in the left operand, the guess is the constant
+        tasks.append(dict(name='twin/spec-const-right-nested/%d/w%d' % (c, W), W=W, bind={'y': c & ((1 << (8 * W)) - 1)},
+                          csrc=SPRE + 'empty @is_you(int x) { sleep((ord(x) + 0) ?? %s); sleep(g); sleep(-ord(x) ?? %s); sleep(g); sleep((flip(x) is int) ?? %s); sleep(g); sleep((ord(x) * 2 - ord(x)) ?? %s); sleep(g); }\n' % (L, L, L, L),
+                          vsrc=SPRE + 'empty @is_you(int x, int y) { sleep((ord(x) + 0) ?? y); sleep(g); sleep(-ord(x) ?? y); sleep(g); sleep((flip(x) is int) ?? y); sleep(g); sleep((ord(x) * 2 - ord(x)) ?? y); sleep(g); }\n'))
     for a in ('true', 'false'):
         tasks.append(dict(name='twin/spec-bool/%s/w%d' % (a, W), W=W, bind={'y': int(a == 'true')},
                           csrc=SPRE + 'empty @is_you(int x) { bool b = %s ?? flip(x); sleep(b is int); sleep(g); bool c = flip(x) ?? %s; sleep(c is int); sleep(g); }\n' % (a, a),
                           vsrc=SPRE + 'empty @is_you(int x, int y) { bool t = y is bool; bool b = t ?? flip(x); sleep(b is int); sleep(g); bool c = flip(x) ?? t; sleep(c is int); sleep(g); }\n'))
+    # a constant condition that is false: the loop runs zero times and what follows it is reachable
+    for cexpr in ('false', 'DBG', '1 > 2', 'not true', '(0 is bool)'):
+        tasks.append(dict(name='twin/loop-const-false/%s/w%d' % (cexpr.replace(' ', ''), W), W=W, bind={'y': 0},
+                          csrc='const bool DBG = false;\nempty nop() { while (%s) { write(\'n\'); } }\nempty @is_you(int x) { while (%s) { write(\'d\'); } write(\'a\'); for (int i = 0; %s; i += 1) { write(\'x\'); } write(\'b\'); nop(); write(\'c\'); if (%s) { write(\'i\'); } else { write(\'e\'); } sleep(x); }\n' % ((cexpr,) * 4),
+                          vsrc='bool t = false;\nempty nop() { while (t) { write(\'n\'); } }\nempty @is_you(int x, int y) { t = y is bool; while (t) { write(\'d\'); } write(\'a\'); for (int i = 0; t; i += 1) { write(\'x\'); } write(\'b\'); nop(); write(\'c\'); if (t) { write(\'i\'); } else { write(\'e\'); } sleep(x); }\n'))
     # logical operators with a constant operand keep the other operand's effects and faults
     for op, a in itertools.product(('and', 'or'), ('true', 'false')):
         tasks.append(dict(name='twin/logic-effects/%s/%s/w%d' % (op, a, W), W=W, bind={'y': int(a == 'true')},
@@ -249,7 +266,7 @@ def main():
     quick = rep.tier == 'quick'
     rng = random.Random(rep.seed)
     from hv import chx
-    chx.run_into(rep, 'c14', per_condition_timeout=40 if quick else 200)
+    chx.run_into(rep, 'c14', per_condition_timeout=200 if quick else 600)
     tasks = []
     for W in ([2, 3] if quick else [2, 3, 4]):
         tasks += make_tasks(W, quick or W != 2, rng)
